@@ -732,7 +732,14 @@ impl XmlAttribute {
     pub fn empty(name: &str, context: &Context) -> error::Result<Rc<XmlItem>> {
         let xml = format!("{}=''", name);
         let (rest, tree) = xml_parser::attribute(xml.as_str())?;
-        if rest.is_empty() {
+        // The whole of `name` must be the name: no part of it may be read as white space
+        // or as the value.
+        let length = match &tree.name {
+            parser::AttributeName::DefaultNamespace => "xmlns".len(),
+            parser::AttributeName::Namespace(n) => "xmlns:".len() + n.len(),
+            parser::AttributeName::QName(n) => qname_length(n),
+        };
+        if rest.is_empty() && tree.value.is_empty() && length == name.len() {
             XmlAttribute::node(&tree, None, context)
         } else {
             Err(error::Error::InvalidData(name.to_string()))
@@ -2438,7 +2445,9 @@ impl XmlElement {
     pub fn empty(name: &str, context: &Context) -> error::Result<Rc<XmlItem>> {
         let xml = format!("<{} />", name);
         let (rest, tree) = xml_parser::element(xml.as_str())?;
-        if rest.is_empty() {
+        // The whole of `name` must be the name: no part of it may be read as white space
+        // or as attributes.
+        if rest.is_empty() && tree.attributes.is_empty() && qname_length(&tree.name) == name.len() {
             XmlElement::node(&tree, None, context)
         } else {
             Err(error::Error::InvalidData(name.to_string()))
@@ -3552,7 +3561,8 @@ impl XmlProcessingInstruction {
     pub fn empty(target: &str, context: &Context) -> error::Result<Rc<XmlItem>> {
         let xml = format!("<?{}?>", target);
         let (rest, tree) = xml_parser::pi(xml.as_str())?;
-        if rest.is_empty() {
+        // The whole of `target` must be the target: no part of it may be read as content.
+        if rest.is_empty() && tree.target == target {
             Ok(XmlProcessingInstruction::node(&tree, None, context))
         } else {
             Err(error::Error::InvalidData(target.to_string()))
@@ -4644,6 +4654,13 @@ fn notation(context: &Context, name: &str) -> Value<Option<XmlNode<XmlNotation>>
             }
         }
         _ => Value::V(None),
+    }
+}
+
+fn qname_length(name: &xml_nom::model::QName<'_>) -> usize {
+    match name {
+        xml_nom::model::QName::Prefixed(n) => n.prefix.len() + 1 + n.local_part.len(),
+        xml_nom::model::QName::Unprefixed(n) => n.len(),
     }
 }
 
